@@ -290,3 +290,95 @@ contract(FT, 'Ptime.__embed__', props=('C13',), params={'self': 'self', 'inval':
          loops={0: Loop(inv=ptime_pass, over=counts('repeats'), kinds={'inval': 'obj', '_': 'int'})},
          policies={'counter': counter_pol}, class_modules={'Ptime': FT, 'TimeThread': 'sc3/base/stream.py'},
          hooks={'getattr': pt_getattr}, opts={'generator_trace': True}, native=False)
+
+
+# ---- Pgate: hold a value until the gate key opens -------------------------------------------------------------------------------
+# every repetition makes ONE stream of the pattern; every pass draws a NEW value from it exactly when the input event's
+# gate key is True or there is no value yet (first pass of a repetition), and embeds a COPY of the current value in place
+# with the threaded input event; the end of the stream ends the repetition, and the next one starts without a held value.
+GATE_OPEN = z3.Bool('gate_key_is_True!0')
+
+
+def pg_getattr(eng, obj, name, st, node):
+    if obj.k == 'obj' and name == 'get' and not (obj.extra and 'of' in obj.extra):        # the input event (whatever it is by now)
+        def get(eng, a, kw, st, node, _o=obj):
+            b = z3.Bool('gate_key_is_True!%d' % next(eng.counter))
+            st.trace.append(('gate-read', _o, tuple(a), b))
+            return [(st, V('obj', oid='gate-value', extra={'is_true': b}))]
+        return [(st, V('func', py=('spec', get)))]
+    return h_getattr(eng, obj, name, st, node)
+
+
+def pg_compare(eng, op, a, b, st, node):
+    import ast as _a
+    if isinstance(op, (_a.Is, _a.IsNot)):
+        for p, q in ((a, b), (b, a)):
+            if p.k == 'obj' and p.oid == 'gate-value' and q.k == 'bool' and z3.is_true(z3.simplify(q.z)):
+                r = p.extra['is_true']
+                return z3.Not(r) if isinstance(op, _a.IsNot) else r
+            if p.k == 'obj' and p.oid == 'held-value' and q.k == 'none':
+                r = z3.Not(z3.Bool('a_value_is_held'))
+                return z3.Not(r) if isinstance(op, _a.IsNot) else r
+    return None
+
+
+def held_kind(eng, name):
+    return V('obj', oid='held-value')
+
+
+def pg_embed(eng, selfv, args, kwargs, st, node):
+    g = V('obj', oid='gen!%d' % next(eng.counter))
+    st.trace.append(('embed', args[0], args[1], g))
+    return [(st, g)]
+
+
+def pg_remember(eng, st):
+    st.ghost = dict(st.ghost)
+    st.ghost['output_at_head'] = st.env.get('output')
+    st.ghost['inevent_at_head'] = st.env.get('inevent')
+
+
+def gate_pass(c, L):
+    ev = events(c, 1)
+    if ev is None:
+        return z3.BoolVal(True)
+    full = since(c.trace, 1)
+    draws = [e for e in ev if e[0] == 'draw']
+    em = [e for e in ev if e[0] == 'embed']
+    yf = [e for e in ev if e[0] == 'yield-from']
+    cps = [e for e in full if e[0] == 'copy']
+    gates = [e for e in full if e[0] == 'gate-read']
+    out0 = c.st.ghost.get('output_at_head')
+    out1 = c.st.env.get('output')
+    in0 = c.st.ghost.get('inevent_at_head')
+    if out0 is None or out1 is None or in0 is None:
+        raise KeyError('output')                              # the locals this clause is about have other names: undecided
+    if len(em) != 1 or len(yf) != 1 or len(cps) != 1 or len(draws) > 1 or yf[0][1] is not em[0][3]:
+        return z3.BoolVal(False)
+    held = z3.Bool('a_value_is_held') if (out0.k == 'obj' and out0.oid == 'held-value') else z3.BoolVal(out0.k != 'none')
+    opened = z3.Or(*[g[3] for g in gates]) if gates else z3.BoolVal(False)
+    cur = draws[0][2] if draws else out0
+    ok = em[0][1] is cps[0][2] and cps[0][1] is cur and em[0][2] is in0 and out1 is cur and c.st.env['inevent'] is yf[0][2]
+    # a new value iff the gate is open or nothing is held; the value embedded is a COPY of the current one
+    return z3.And(z3.BoolVal(bool(draws)) == z3.Or(opened, z3.Not(held)), z3.BoolVal(bool(ok)))
+
+
+def gate_repetition(c, L):
+    # a repetition ends without a held value: the next one draws afresh
+    if L.phase != 'after':
+        return z3.BoolVal(True)
+    out = c.st.env.get('output')
+    if out is None:
+        raise KeyError('output')
+    return z3.BoolVal(out.k == 'none')
+
+
+contract(F, 'Pgate.__embed__', props=('C13',), params={'self': 'self', 'inevent': 'obj'},
+         ensures=[('returns-the-threaded-input-event', lambda c: z3.BoolVal(c.resultv is c.st.env['inevent']))],
+         fields={'Pgate': {'pattern': 'obj', 'key': 'obj', 'repeats': 'obj'}},
+         loops={0: Loop(inv=gate_repetition, over=counts('repeats'),
+                        kinds={'inevent': 'obj', '_': 'int', 'output': held_kind, 'stream': 'obj'}),
+                1: Loop(inv=gate_pass, kinds={'inevent': 'obj', 'output': held_kind}, havoc_hook=pg_remember)},
+         policies={STREAM: role_stream({'pattern': 'any'}), 'counter': counter_pol, 'sc3/base/stream.py::embed': pg_embed},
+         class_modules={'Pgate': F, 'Pn': F},
+         hooks={'getattr': pg_getattr, 'compare': pg_compare, 'ext': pl_copy}, opts={'generator_trace': True}, native=False)
